@@ -18,6 +18,9 @@ func runC14(p *core.Prog, r *core.Report) {
 	c11Paillier(c) // R11.4 shared with C11
 	c14Fresh(c)
 	c14Keygen(c)
+	// R14.3: Paillier operations never overwrite their operands nor return them (homomorphic ops yield new ciphertexts)
+	noArgMutation(c, "R14.3", "crypto/paillier")
+	c.r.Floor("R14.3", 14)
 }
 
 func c14Fresh(c *ctx) {
